@@ -179,9 +179,10 @@ def gen(rng, i, tier):
     kind = rng.choice(KINDS)
     a = base_args(rng, kind)
     for (k, z) in TABLE_PARAMS:
-        if k == kind and z in a and rng.random() < 0.25 and z != "vdrop":
+        if k == kind and z in a and rng.random() < 0.3:
             a[z] = good_table(rng, z)
-    mags = [m for m in MAGS[kind] if m in a and not isinstance(a[m], dict)]
+    # scalars, and voltage-drop TABLES (the only tabulated magnitude a negative sign is not rejected for)
+    mags = [m for m in MAGS[kind] if m in a and (not isinstance(a[m], dict) or m == "vdrop")]
     neg = [m for m in mags if rng.random() < 0.5] or mags[:1]
     return {"mode": "sign", "kind": kind, "args": a, "negate": neg, "neg_supply": rng.random() < 0.4,
             "lseed": rng.randrange(1 << 30)}
@@ -221,7 +222,9 @@ def probe(kind, args, V, I):
 def negate(args, names):
     a = copy.deepcopy(args)
     for n in names:
-        if isinstance(a[n], list):
+        if isinstance(a[n], dict):
+            a[n][n] = [[-x for x in row] for row in a[n][n]]
+        elif isinstance(a[n], list):
             a[n] = [-x for x in a[n]]
         else:
             a[n] = -a[n]
